@@ -58,8 +58,16 @@ func eqInts(a, b []int) bool {
 }
 
 // every Log sequence up to a length over 2 owners x 2 types, Filter after every step
-func c20Sequential(n int, maxLen int) Scenario {
-	return Scenario{Name: fmt.Sprintf("sequential capacity=%d sequences<=%d", n, maxLen), Run: func(rc *RunCtx) *Result {
+func c20Sequential(n int, maxLen int) Scenario { return c20SequentialTypes(n, maxLen, [3]int{0, 1, 2}) }
+
+// tv maps the model's entry types 1 and 2 to the values handed to the logger (any int
+// is a legal type; 0 selects everything in Filter)
+func c20SequentialTypes(n int, maxLen int, tv [3]int) Scenario {
+	name := fmt.Sprintf("sequential capacity=%d sequences<=%d", n, maxLen)
+	if tv != [3]int{0, 1, 2} {
+		name += fmt.Sprintf(" entry-types=%d,%d", tv[1], tv[2])
+	}
+	return Scenario{Name: name, Run: func(rc *RunCtx) *Result {
 		res := &Result{Exhaustive: true}
 		kinds := []logItem{{owner: 1, typ: 1}, {owner: 1, typ: 2}, {owner: 2, typ: 1}, {owner: 2, typ: 2}}
 		seen := map[string]bool{}
@@ -113,7 +121,7 @@ func c20Sequential(n int, maxLen int) Scenario {
 			body := func() {
 				l := go9p.NewLogger(n)
 				for k, it := range seq {
-					l.Log(it.id, c20Owners[it.owner], it.typ)
+					l.Log(it.id, c20Owners[it.owner], tv[it.typ])
 					// an immediate Filter may lag, but must be a window of a prefix
 					got := idsOf(l.Filter(nil, 0))
 					ok := false
@@ -129,7 +137,7 @@ func c20Sequential(n int, maxLen int) Scenario {
 					vs.Idle() // logging has stopped and the queue is drained: now it must be exact
 					for o := 0; o <= 2; o++ {
 						for t := 0; t <= 2; t++ {
-							got := idsOf(l.Filter(c20Owners[o], t))
+							got := idsOf(l.Filter(c20Owners[o], tv[t]))
 							want := c20Match(seq, k+1, n, o, t)
 							if !eqInts(got, want) {
 								bad = fmt.Sprintf("after %d entries (capacity %d) Filter(owner %d, type %d) returned %v, expected %v", k+1, n, o, t, got, want)
@@ -251,6 +259,10 @@ func c20Scenarios(tier string) []Scenario {
 			ml = 150
 		}
 		out = append(out, c20Sequential(n, ml))
+		if n <= 2 {
+			// type values outside any small range: negative, 64 and above, large
+			out = append(out, c20SequentialTypes(n, ml, [3]int{0, 64, -1}), c20SequentialTypes(n, ml, [3]int{0, 1 << 20, 63}))
+		}
 	}
 	P := 2
 	if tier == "thorough" {
@@ -273,7 +285,7 @@ func c20Scenarios(tier string) []Scenario {
 func init() {
 	register(&Property{ID: "C20", Level: "model_checking",
 		Technique: "stateless model checking of the real logger goroutine, producers and a filterer under the controlled scheduler (select-case choices explored); sequential enumeration of Log sequences against a reference ring",
-		Rule:      "sequential: capacities 1..4 (thorough ..64), every beginning of length 6 over 2 owners x 2 types continued to 3N+2 entries, all 9 owner/type Filter selections after every entry, compared with 'the matching entries among the last N' (an immediate Filter may lag to an earlier prefix, after quiescence it must be exact); concurrent: 1-3 producers x 1-3 entries, a filterer calling Filter 1-2 times, N in 1..3, every schedule with at most P preemptions including every choice of the logger's select: each result must be the window of some prefix of the observed logging order, the final result exact, nobody blocked. distinct = distinct per-object operation orders / sequences",
+		Rule:      "sequential: capacities 1..4 (thorough ..64), every beginning of length 6 over 2 owners x 2 types (type values 1/2, 64/-1, 2^20/63) continued to 3N+2 entries, all 9 owner/type Filter selections after every entry, compared with 'the matching entries among the last N' (an immediate Filter may lag to an earlier prefix, after quiescence it must be exact); concurrent: 1-3 producers x 1-3 entries, a filterer calling Filter 1-2 times, N in 1..3, every schedule with at most P preemptions including every choice of the logger's select: each result must be the window of some prefix of the observed logging order, the final result exact, nobody blocked. distinct = distinct per-object operation orders / sequences",
 		Assumptions: []string{"code between two synchronisation operations is atomic", "logging order = order in which sends on the logger's channel complete (observed by the scheduler)"},
 		Scenarios:   c20Scenarios, QuickS: 100, ThoroughS: 900})
 }
